@@ -1,6 +1,11 @@
 // Scheduled correspondence harness for refcount.RefCount (C08, C09, C10).
 // Event and observation encoding: see /verif/coq/theories/RefCount/Spec.v.
 //
+// Contexts: the n-th consumer of a history (event 10, n from 1) gets a context of the flavour hctx.Flavour(n): n%4 == 1 ends like a
+// deadline (Err() == context.DeadlineExceeded), n%4 == 3 is cancelled with a cause, otherwise plain WithCancel; root contexts: 1
+// plain, 2 deadline-like, 3 with cause.  The code under test returns the literal context.Canceled whatever the flavour; codeOf
+// distinguishes context.Canceled (1), context.DeadlineExceeded (97), the cause (98) and anything else (99).
+//
 // Consumer kind 1 calls WaitWithReleased and then replicates the six lines of ResolveWithReleased (await the
 // promise; on error release the reference) so that the harness knows the *Ref and can attribute the goroutine
 // spawned by the callback to its consumer.  Kind 3 calls RefCount.Resolve and kind 4 calls RefCount.ResolveWithReleased
@@ -22,6 +27,7 @@ import (
 	"github.com/aperturerobotics/util/ccontainer"
 	"github.com/aperturerobotics/util/refcount"
 	"verif/harness/ctl"
+	"verif/harness/hctx"
 	"verif/harness/hist"
 )
 
@@ -58,7 +64,8 @@ type refdata struct {
 
 type cdata struct {
 	kind    uint64
-	cancel  context.CancelFunc
+	cancel  func() // ends the caller's context (a context flavour of hctx: plain / deadline-like / cancelled with a cause)
+	flavour int    // 0 plain, 1 deadline-like, 2 cancelled with a cause
 	canc    bool
 	ref     *refcount.Ref[uint64]
 	refIdx  int
@@ -83,15 +90,16 @@ type cdata struct {
 }
 
 type sys struct {
-	nclear int    // clearing calls so far: they alternate between SetContext(nil) and ClearContext()
-	curCtx uint64 // the root last installed (0 none)
+	nclear  int    // clearing calls so far: they alternate between SetContext(nil) and ClearContext()
+	nctx    int    // context-taking consumer calls so far (event 10): the n-th one gets the context flavour hctx.Flavour(n)
+	curCtx  uint64 // the root last installed (0 none)
 	c       *ctl.Ctl
 	w       *hist.W
 	rc      *refcount.RefCount[uint64]
 	target  *ccontainer.CContainer[uint64]
 	terr    *ccontainer.CContainer[*error]
 	roots   []context.Context
-	cancels []context.CancelFunc
+	cancels []func()
 	rootc   [4]bool // root contexts cancelled by their owner (event 14)
 	gors    []*ctl.Actor
 	asyncs  []*ctl.Actor
@@ -112,7 +120,7 @@ type sys struct {
 	// coverage bookkeeping: after the previous event an error with the empty value was stored and some reference in the set
 	// had it as last notification; a kind 1 / 4 consumer was inside its own Release then; consumers already counted
 	prevErrEmpty, prevErrEmptyConsRel bool
-	counted                            map[int]bool
+	counted                           map[int]bool
 }
 
 func errOf(code uint64) error {
@@ -126,18 +134,36 @@ func errOf(code uint64) error {
 	}
 }
 
+// Error codes of what the library returned / stored.  The IDENTITY counts (a consumer whose context ended must get the
+// literal context.Canceled whatever the flavour of its context: deadline-like, cancelled with a cause):
+// 1 context.Canceled itself, 97 context.DeadlineExceeded, 98 hctx.ErrCause (the cause of a context cancelled with a cause),
+// n the harness's own error "e<n>" (resolver errors 2, 3; callback errors 10, 11), 99 anything else (also a wrapped Canceled).
+const (
+	codeDeadline = 97
+	codeCause    = 98
+	codeOther    = 99
+)
+
 func codeOf(err error) uint64 {
 	if err == nil {
 		return 0
 	}
-	if errors.Is(err, context.Canceled) {
+	switch err {
+	case context.Canceled:
 		return 1
+	case context.DeadlineExceeded:
+		return codeDeadline
+	case hctx.ErrCause:
+		return codeCause
+	}
+	if errors.Is(err, context.Canceled) || errors.Is(err, context.DeadlineExceeded) || errors.Is(err, hctx.ErrCause) {
+		return codeOther
 	}
 	var n uint64
 	if _, e := fmt.Sscanf(err.Error(), "e%d", &n); e == nil {
 		return n
 	}
-	return 99
+	return codeOther
 }
 
 func newSys(w *hist.W, cfg []uint64) *sys {
@@ -145,11 +171,13 @@ func newSys(w *hist.W, cfg []uint64) *sys {
 	s.target = ccontainer.NewCContainer[uint64](0)
 	s.terr = ccontainer.NewCContainer[*error](nil)
 	s.roots = []context.Context{nil}
-	s.cancels = []context.CancelFunc{nil}
+	s.cancels = []func(){nil}
 	for i := 1; i <= 3; i++ {
-		ctx, cancel := context.WithCancel(context.Background())
+		// root 1 is a plain WithCancel context, root 2 ends like a deadline (Err() == DeadlineExceeded), root 3 is cancelled
+		// with a cause: the library never hands the root's error to anybody, whatever its flavour
+		ctx, end, _ := hctx.Flavour(context.Background(), []int{0, 0, 1, 3}[i])
 		s.roots = append(s.roots, ctx)
-		s.cancels = append(s.cancels, cancel)
+		s.cancels = append(s.cancels, end)
 	}
 	s.rc = refcount.NewRefCount[uint64](nil, cfg[0] == 1, s.target, s.terr, s.resolver)
 	s.c.ShouldPark = func(a *ctl.Actor, pkg string, site int, obj any) bool {
@@ -431,7 +459,13 @@ func (s *sys) obs(rets []uint64) []uint64 {
 			if d.kind == 2 {
 				e = nw
 			}
-			o = append(o, 3, d.v, e, b2u(d.held))
+			st := uint64(3)
+			if d.kind != 2 && (d.e == codeDeadline || d.e == codeCause || d.e == codeOther) {
+				// a Wait / Resolve / ResolveWithReleased call returned an error that is neither a resolver error nor
+				// context.Canceled itself: status 7 (no model state has it; monitor clause 10.8)
+				st = 7
+			}
+			o = append(o, st, d.v, e, b2u(d.held))
 		} else if incb {
 			o = append(o, 6, d.cbval, nw, b2u(d.cbctx.Err() != nil && !d.virt))
 		} else {
@@ -604,9 +638,12 @@ func (s *sys) exec(ev []uint64) (obs []uint64, ok bool) {
 				}
 			}
 		}
-		ctx, cancel := context.WithCancel(context.Background())
+		// the n-th context-taking call of the history (n from 1) gets the flavour n%4: 1 deadline-like, 3 cancelled with a
+		// cause, 0 / 2 plain (a replay reproduces it: the counter is per history)
+		s.nctx++
+		ctx, cancel, flavour := hctx.Flavour(context.Background(), s.nctx)
 		a := s.c.NewActor(kCons)
-		d := &cdata{kind: ev[1], cancel: cancel, refIdx: len(s.refs)}
+		d := &cdata{kind: ev[1], cancel: cancel, flavour: flavour, refIdx: len(s.refs)}
 		a.Data = d
 		s.cons = append(s.cons, a)
 		rd := &refdata{kind: 9}
@@ -900,7 +937,7 @@ func (s *sys) gen(r *rand.Rand, maxG int) []uint64 {
 		x := r.IntN(100)
 		switch {
 		case x < 8 && room:
-			c := uint64(1 + r.IntN(2))
+			c := uint64(1 + r.IntN(3))
 			if r.IntN(5) == 0 {
 				c = 0
 			}
@@ -942,7 +979,7 @@ func (s *sys) gen(r *rand.Rand, maxG int) []uint64 {
 		case x < 93 && len(incb) > 0:
 			return []uint64{13, uint64(pick(r, incb)), cbres()}
 		case x == 93 && s.wantRootCancel && len(s.gors) > 0:
-			return []uint64{14, uint64(1 + r.IntN(2))}
+			return []uint64{14, uint64(1 + r.IntN(3))}
 		case x < 94 && len(conslive) > 0 && (!s.wantAcc || r.IntN(4) == 0):
 			return []uint64{11, uint64(pick(r, conslive))}
 		case x < 100 && len(firep) > 0:
@@ -980,6 +1017,16 @@ func (s *sys) count(ev, obs []uint64) {
 	}
 	if ev[0] == 10 {
 		s.w.Count("ev.consumer_"+[]string{"wait", "wait_with_released", "access", "resolve", "resolve_with_released"}[ev[1]], 1)
+		s.w.Count("ctx.consumer_context_"+[]string{"plain", "deadline_like", "with_cause"}[s.cons[len(s.cons)-1].Data.(*cdata).flavour], 1)
+	}
+	if ev[0] == 11 {
+		s.w.Count("ctx.consumer_context_ended_"+[]string{"plain", "deadline_like", "with_cause"}[s.cons[ev[1]].Data.(*cdata).flavour], 1)
+	}
+	if ev[0] == 14 {
+		s.w.Count("ctx.root_context_ended_"+[]string{"", "plain", "deadline_like", "with_cause"}[ev[1]], 1)
+	}
+	if ev[0] == 1 && ev[1] != 0 {
+		s.w.Count("ctx.setcontext_"+[]string{"", "plain", "deadline_like", "with_cause"}[ev[1]], 1)
 	}
 	if ev[0] == 8 && len(ev) > 4 && ev[4] == 1 && ev[3] != 0 {
 		s.w.Count("ev.resolver_return_error_with_empty_value", 1)
@@ -1039,6 +1086,33 @@ func (s *sys) count(ev, obs []uint64) {
 			}
 			s.w.Count(fmt.Sprintf("obs.%s_returned_%s", []string{3: "resolve", 4: "resolve_with_released"}[d.kind], what), 1)
 		}
+		// what a consumer whose (flavoured) context was ended got back
+		if d.ret && !s.counted[2000+i] {
+			s.counted[2000+i] = true
+			api := []string{"wait", "wait_with_released", "access", "resolve", "resolve_with_released"}[d.kind]
+			fl := []string{"plain", "deadline_like", "with_cause"}[d.flavour]
+			code := d.e
+			if d.kind == 2 {
+				code = d.v
+			}
+			if d.canc && code != 0 {
+				what := fmt.Sprintf("error_%d", code)
+				switch code {
+				case 1:
+					what = "context_canceled"
+				case codeDeadline:
+					what = "deadline_exceeded"
+				case codeCause:
+					what = "the_cause"
+				}
+				s.w.Count(fmt.Sprintf("ctx.%s_with_%s_context_ended_returned_%s", api, fl, what), 1)
+				if d.flavour != 0 && code == 1 {
+					s.w.Count("ctx.flavoured_context_ended_returned_context_canceled", 1)
+				}
+			} else if d.canc {
+				s.w.Count(fmt.Sprintf("ctx.%s_with_%s_context_ended_returned_nil", api, fl), 1)
+			}
+		}
 		if d.kind == 4 && d.fired > 0 && !s.counted[1000+i] {
 			s.counted[1000+i] = true
 			s.w.Count("obs.resolve_with_released_callback_fired", 1)
@@ -1059,6 +1133,9 @@ func (s *sys) count(ev, obs []uint64) {
 		}
 		if d.kind == 2 && ca.InUser() == 2 {
 			s.w.Count("obs.access_in_callback", 1)
+			if d.canc && d.cbctx.Err() != nil {
+				s.w.Count(fmt.Sprintf("ctx.access_callback_ctx_err_after_%s_caller_context_ended_code_%d", []string{"plain", "deadline_like", "with_cause"}[d.flavour], codeOf(d.cbctx.Err())), 1)
+			}
 			if d.cbctx.Err() != nil && !d.canc {
 				s.w.Count("obs.access_callback_ctx_cancelled_by_invalidation", 1)
 				if s.target.GetValue() == d.cbval && d.cbval != 0 {
